@@ -823,6 +823,7 @@ func (rn *smRunner) run(b smBehaviour) {
 		r    uint32
 	}
 	signs := map[signKey]int{}
+	decides := map[[2]uint64]int{}
 	var lastEntered [2]uint64
 	haveEntered := false
 	curView := absView{}
@@ -1040,6 +1041,36 @@ func (rn *smRunner) run(b smBehaviour) {
 				}
 			}
 		}
+		// outputs recorded by other goroutines (driver, mirror server) may lag behind the hook event:
+		// wait until as many records of each asynchronous kind as the spec expects have arrived
+		if !died && r != nil {
+			wantN := map[string]int{}
+			for _, o := range s.O {
+				if t, _ := o["t"].(string); t == "finalizeReq" || t == "entrance" {
+					wantN[t]++
+				}
+			}
+			for n := 0; n < 2000; n++ {
+				have := map[string]int{}
+				rec.mu.Lock()
+				for _, o := range rec.out {
+					if t, _ := o["t"].(string); t != "" {
+						have[t]++
+					}
+				}
+				rec.mu.Unlock()
+				ok := true
+				for t, c := range wantN {
+					if have[t] < c {
+						ok = false
+					}
+				}
+				if ok {
+					break
+				}
+				time.Sleep(time.Millisecond)
+			}
+		}
 		// let the driver/mirror goroutines record what they received
 		time.Sleep(3 * time.Millisecond)
 		for n := 0; n < 200 && r.srvBusy.Load() != 0; n++ {
@@ -1118,6 +1149,15 @@ func (rn *smRunner) run(b smBehaviour) {
 					}
 				}
 				lastEntered, haveEntered = [2]uint64{h, rr}, true
+			case "strategy":
+				if o["kind"] == "Decide" {
+					key := [2]uint64{toU64(o["h"]), toU64(o["r"])}
+					decides[key]++
+					if decides[key] > 1 && !restartedSince(b.Steps, i) {
+						rn.viol(b.ID, i, "C08", "PrecommitExactlyOnceWhenDue", s.Op, "twice",
+							fmt.Sprintf("the strategy was asked for its precommit twice in round %d/%d", key[0], key[1]))
+					}
+				}
 			case "timerStart":
 				if ov, _ := o["_overlap"].(bool); ov {
 					rn.viol(b.ID, i, "C12", "AtMostOneTimer", s.Op, fmt.Sprint(o["name"]),
@@ -1152,6 +1192,21 @@ func (rn *smRunner) run(b smBehaviour) {
 					rn.viol(b.ID, i, "C08", "FinalizeNeedsQuorumOrCH", s.Op, "noquorum",
 						fmt.Sprintf("asked the driver to finalize %s at %v/%v with %d of 4 precommits for it in view", blk, o["h"], o["r"], len(curView.Pc[blk])))
 				}
+			}
+		}
+		// C08: once its prevote is out and a prevote quorum for one target is visible in its round view,
+		// the strategy must have been asked for the precommit
+		if !died && !s.Crash && !k.Replaying && curView.H == k.H && curView.R == k.R && !k.PrevoteCh &&
+			(k.S == "AwaitingPrevotes" || k.S == "PrevoteDelay" || k.S == "AwaitingPrecommits" || k.S == "PrecommitDelay") {
+			quorum := false
+			for _, signers := range curView.Pv {
+				if len(signers) >= 3 {
+					quorum = true
+				}
+			}
+			if quorum && decides[[2]uint64{k.H, uint64(k.R)}] == 0 && !restartedSince(b.Steps, i) {
+				rn.viol(b.ID, i, "C08", "PrecommitExactlyOnceWhenDue", s.Op, "never:"+k.S,
+					fmt.Sprintf("in %d/%d (step %s) the state machine has prevoted and sees a prevote quorum, but never asked the strategy for its precommit", k.H, k.R, k.S))
 			}
 		}
 		// timer discipline (C12a)
